@@ -28,6 +28,11 @@ func c11Graphs() []c11Graph {
 		{"cycle-2", map[string]string{"p.vuego": inc("a.vuego"), "a.vuego": "<i>a</i>" + inc("p.vuego")}, true},
 		{"cycle-3", map[string]string{"p.vuego": inc("a.vuego"), "a.vuego": inc("b.vuego"), "b.vuego": "<i>b</i>" + inc("a.vuego")}, true},
 		{"cycle-via-slot-content", map[string]string{"p.vuego": `<template include="a.vuego">` + inc("p.vuego") + `</template>`, "a.vuego": "<div><slot></slot></div>"}, true},
+		{"slot-inside-supplied-content", map[string]string{"p.vuego": `<template include="a.vuego"><slot></slot></template>`, "a.vuego": "<div><slot>fb</slot></div>"}, false},
+		{"named-slot-inside-supplied-content", map[string]string{"p.vuego": `<template include="a.vuego"><template #x><slot name="x">pfb</slot></template></template>`, "a.vuego": `<div><slot name="x">fb</slot></div>`}, false},
+		{"slot-inside-slot-fallback", map[string]string{"p.vuego": `<template include="a.vuego"></template>`, "a.vuego": "<div><slot><slot>inner-fb</slot></slot></div>"}, false},
+		{"cycle-via-slot-fallback", map[string]string{"p.vuego": inc("a.vuego"), "a.vuego": `<div><slot>` + inc("a.vuego") + `</slot></div>`}, true},
+		{"cycle-via-named-slot", map[string]string{"p.vuego": `<template include="a.vuego"><template #b="q">` + inc("p.vuego") + `</template></template>`, "a.vuego": `<div><slot name="b" :v="1"></slot></div>`}, true},
 		{"cycle-in-loop", map[string]string{"p.vuego": `<div v-for="x in items">` + inc("p.vuego") + `</div>`}, true},
 		{"cycle-in-vif", map[string]string{"p.vuego": `<div v-if="items">` + inc("p.vuego") + `</div>`}, true},
 		{"cycle-through-component-tag", map[string]string{"p.vuego": `<loop-er></loop-er>`, "components/LoopEr.vuego": `<loop-er></loop-er>`}, true},
